@@ -102,8 +102,22 @@ def run(prop, tier, seed, names, level, rule, include_points=False, design_ref=N
     if w < 0:
         rep.inconclusive.append("JIT cache warm-up failed")
     jobs = build_jobs(prop, tier, seed, names, include_points=include_points)
-    common.run_jobs(jobs)
+    # the same oracles on every propagator execution of real searches (boxes that searches actually reach, offsets applied)
+    from framework.props import modelfamily
+
+    q = tier == "quick"
+    ejobs = modelfamily.build_jobs(prop, tier, seed + 17, do=["enum"], monitors=["budget", "calls"], jit_share=0.0,
+                                   njobs=4 if q else 8, per_job=30 if q else 500, configs_per_model=2,
+                                   monitor_opts={"calls": {"hull_limit": 3000}})
+    common.run_jobs(jobs + ejobs)
     aggregate(rep, jobs, names)
+    d1 = rep.distinct
+    ev = rep.evaluations
+    rep.distinct = set()
+    modelfamily.aggregate(rep, ejobs)
+    rep.evaluations = ev + rep.counters.get("calls.distinct_judged", 0)
+    rep.distinct = set(d1)
+    rep.counters["in_engine_executions_judged"] = rep.counters.get("calls.distinct_judged", 0)
     rep.need("hull_decided", minimum_hull, "O-hull oracle")
     rep.assumptions = [
         "O-sem predicates (framework/oracles.py) are a faithful reading of docs/source/reference.rst",
